@@ -137,7 +137,10 @@ fn layered(xref_stream: bool) -> Vec<u8> {
         // the page tree root reaches its kids through an indirect array
         o1.push(json!({"n": 8, "g": 0, "value": [r(3), r(5)]}));
     }
-    let mut o2 = vec![json!({"n": 2, "g": 0, "value": d(vec![("Type", n("Pages")), ("Kids", json!([r(3)])), ("Count", json!(1))])})];
+    let mut o2 = vec![json!({"n": 2, "g": 0, "value": d(vec![("Type", n("Pages")), ("Kids", if xref_stream { json!([r(3)]) } else { r(9) }), ("Count", json!(1))])})];
+    if !xref_stream {
+        o2.push(json!({"n": 9, "g": 0, "value": [r(3)]}));
+    }
     if xref_stream {
         for o in o1.iter_mut().chain(o2.iter_mut()) {
             if o.get("value").is_some() {
